@@ -22,6 +22,11 @@ Proof. apply path_eqb_eq. reflexivity. Qed.
 Lemma path_eqb_neq a b : a <> b -> path_eqb a b = false.
 Proof. intros H. destruct (path_eqb a b) eqn:E; auto. apply path_eqb_eq in E. contradiction. Qed.
 
+Lemma path_dec (a b : path) : {a = b} + {a <> b}.
+Proof.
+  destruct (path_eqb a b) eqn:E; [left; apply path_eqb_eq; auto | right; intros Q; rewrite Q, path_eqb_refl in E; discriminate].
+Qed.
+
 (* ---------- the map *)
 Lemma lookup_remove_same fs p : lookup (remove fs p) p = None.
 Proof.
@@ -55,16 +60,17 @@ Qed.
 
 Lemma is_dir_lookup fs p : p <> [] -> (is_dir fs p = true <-> lookup fs p = Some Dir).
 Proof.
-  intros NE. unfold is_dir. destruct p; [contradiction|]. destruct (lookup fs (l :: p)) as [[|b]|]; split; auto; discriminate.
+  intros NE. unfold is_dir. destruct p as [|x p]; [contradiction|]. destruct (lookup fs (x :: p)) as [[|b]|]; split; auto; discriminate.
 Qed.
 Lemma is_file_lookup fs p : is_file fs p = true <-> p <> [] /\ exists b, lookup fs p = Some (File b).
 Proof.
-  unfold is_file. destruct p.
+  unfold is_file. destruct p as [|x p].
   - split; [discriminate | intros [H _]; contradiction].
-  - destruct (lookup fs (l :: p)) as [[|b]|]; split; try discriminate.
-    + intros [_ [b H]]. discriminate.
+  - destruct (lookup fs (x :: p)) as [[|b]|]; split; try discriminate.
+    + intros [_ [b0 H]]. discriminate H.
     + intros _. split; [discriminate | eauto].
-    + intros [_ [b H]]. discriminate.
+    + intros _. reflexivity.
+    + intros [_ [b0 H]]. discriminate H.
 Qed.
 Lemma file_bytes_lookup fs p : is_file fs p = true -> lookup fs p = Some (File (file_bytes fs p)).
 Proof. intros H. apply is_file_lookup in H. destruct H as [_ [b H]]. unfold file_bytes. rewrite H. reflexivity. Qed.
@@ -172,17 +178,13 @@ Proof. intros NE. unfold mkd. destruct (is_dir f q); auto. apply lookup_set_othe
 Lemma mkd_keeps_dir f q r : is_dir f r = true -> is_dir (mkd f q) r = true.
 Proof.
   intros H. destruct r as [|x r]; auto.
-  assert (D : {x :: r = q} + {x :: r <> q}).
-  { destruct (path_eqb (x :: r) q) eqn:E; [left; apply path_eqb_eq; auto | right; intros ->; rewrite path_eqb_refl in E; discriminate]. }
-  destruct D as [<-|NE]; [apply mkd_dir|].
+  destruct (path_dec (x :: r) q) as [E|NE]; [rewrite E; apply mkd_dir|].
   apply is_dir_lookup; [discriminate|]. rewrite mkd_other; auto. apply is_dir_lookup in H; auto. discriminate.
 Qed.
 Lemma mkd_keeps f q r x : lookup f r = Some x -> ~ (is_file f q = true) -> lookup (mkd f q) r = Some x.
 Proof.
   intros H NF. unfold mkd. destruct (is_dir f q) eqn:E; auto.
-  assert (D : {r = q} + {r <> q}).
-  { destruct (path_eqb r q) eqn:Q; [left; apply path_eqb_eq; auto | right; intros ->; rewrite path_eqb_refl in Q; discriminate]. }
-  destruct D as [->|NE]; [|rewrite lookup_set_other; auto].
+  destruct (path_dec r q) as [->|NE]; [|rewrite lookup_set_other; auto].
   exfalso. unfold is_dir, is_file in *. destruct q; [discriminate|]. rewrite H in *. destruct x; [discriminate|]. apply NF. reflexivity.
 Qed.
 
@@ -192,7 +194,7 @@ Lemma fold_mkd l : forall f,
   /\ (forall r, ~ In r l -> lookup (fold_left mkd l f) r = lookup f r).
 Proof.
   induction l as [|q l IH]; intros f; cbn [fold_left In].
-  - repeat split; auto. intros q [].
+  - repeat split; auto; intros q [].
   - destruct (IH (mkd f q)) as (A & B & C). repeat split.
     + intros q' [<-|I]; auto. apply B. apply mkd_dir.
     + intros r H. apply B. apply mkd_keeps_dir. exact H.
@@ -222,7 +224,7 @@ Proof.
   revert acc. induction p as [|n p IH]; intros acc; cbn [prefixes_from]; [intros []|].
   intros [<-|I].
   - exists [n], p. repeat split; auto. discriminate.
-  - destruct (IH _ I) as (a & b & NE & -> & ->). exists (n :: a), b. repeat split; [discriminate| |rewrite <- app_assoc; reflexivity]. reflexivity.
+  - destruct (IH _ I) as (a & b & NE & -> & ->). exists (n :: a), b. split; [discriminate|]. split; [reflexivity|]. rewrite <- app_assoc. reflexivity.
 Qed.
 
 (* ---------- path_segments *)
@@ -288,11 +290,6 @@ Proof.
   intros NE H. unfold parent in H. pose proof (removelast_last_app p [] NE) as Q.
   rewrite H in Q. assert (L : length p = length (p ++ [last p []])) by (rewrite <- Q; reflexivity).
   rewrite app_length in L. cbn in L. lia.
-Qed.
-
-Lemma path_dec (a b : path) : {a = b} + {a <> b}.
-Proof.
-  destruct (path_eqb a b) eqn:E; [left; apply path_eqb_eq; auto | right; intros ->; rewrite path_eqb_refl in E; discriminate].
 Qed.
 
 Lemma is_dir_set_other fs p n r : r <> p -> is_dir (set fs p n) r = is_dir fs r.
@@ -401,7 +398,7 @@ Proof.
       * destruct (W p _ (file_bytes_lookup fs p F)) as [R1 R2]. split; auto. rewrite is_dir_set_other; auto. apply parent_neq; auto.
       * rewrite lookup_set_other in L; auto. destruct (W r nd L) as [R1 R2]. split; auto.
         destruct (path_dec (parent r) p) as [Q|NP].
-        -- exfalso. rewrite Q in R2. apply is_file_lookup in F. destruct F as [NEp [b Lp]]. apply is_dir_lookup in R2; auto. congruence.
+        -- exfalso. rewrite Q in R2. apply is_file_lookup in F. destruct F as [NEp [b0 Lp]]. apply is_dir_lookup in R2; auto. congruence.
         -- rewrite is_dir_set_other; auto.
     + destruct (writable fs q) eqn:WR; auto. cbn [snd]. apply wf_set_file; auto.
   - destruct (exists_node fs p); auto.
